@@ -381,6 +381,48 @@ PREFIX_SET = {
 }
 
 
+SHAPES_SET = {
+    # degenerate shapes the random generator rarely makes: nothing but padding, ports without any integer attribute, constants of one
+    # kind only, empty halves of services, unions of empties, bit arrays only, nested empties in every position
+    "shq/PadOnly.1.0.dsdl": "void8\n@sealed\n",
+    "shq/PadOnlyDelim.1.0.dsdl": "void3\nvoid13\n@extent 64\n",
+    "shq/PadWide.1.0.dsdl": "void64\nvoid64\nvoid1\n@sealed\n",
+    "shq/100.PortNoInt.1.0.dsdl": "float32 x\n@sealed\n",
+    "shq/101.PortBoolOnly.1.0.dsdl": "bool x\n@extent 8\n",
+    "shq/7000.EmptyPort.1.0.dsdl": "@sealed\n",
+    "shq/7001.EmptyPortDelim.1.0.dsdl": "@extent 0\n",
+    "shq/200.SvcNoInt.1.0.dsdl": "bool x\n@sealed\n---\nfloat32 y\n@sealed\n",
+    "shq/201.SvcEmptyReq.1.0.dsdl": "@sealed\n---\nuint8 y\n@sealed\n",
+    "shq/202.SvcEmptyBoth.1.0.dsdl": "@sealed\n---\n@extent 16\n",
+    "shq/SvcPadOnly.1.0.dsdl": "void16\n@sealed\n---\nvoid1\n@extent 64\n",
+    "shq/SvcUnions.1.0.dsdl": "@union\nuint8 a\nshq.Empty.1.0 e\n@sealed\n---\n@union\nshq.Empty.1.0 e\nshq.PadOnly.1.0 p\n@extent 64\n",
+    "shq/Empty.1.0.dsdl": "@sealed\n",
+    "shq/IntConstOnly.1.0.dsdl": "uint8 A = 1\nint64 B = -9223372036854775808\n@sealed\n",
+    "shq/FloatConstOnly.1.0.dsdl": "float32 A = 1.5\nfloat64 B = 1e300\n@sealed\n",
+    "shq/BoolConstOnly.1.0.dsdl": "bool A = true\n@sealed\n",
+    "shq/FloatFieldIntConst.1.0.dsdl": "float16 f\nuint16 K = 7\n@sealed\n",
+    "shq/BoolFieldOnly.1.0.dsdl": "bool a\n@sealed\n",
+    "shq/BitsOnly.1.0.dsdl": "bool[9] a\nbool[<=9] b\n@sealed\n",
+    "shq/UnionOfEmpties.1.0.dsdl": "@union\nshq.Empty.1.0 a\nshq.Empty.1.0 b\n@sealed\n",
+    "shq/UnionPadMembers.1.0.dsdl": "@union\nshq.PadOnly.1.0 a\nshq.PadOnlyDelim.1.0 b\nshq.Empty.1.0[2] c\n@extent 256\n",
+    "shq/HoldsEmpties.1.0.dsdl": "shq.Empty.1.0 a\nshq.Empty.1.0[3] b\nshq.Empty.1.0[<=3] c\nshq.PadOnly.1.0 d\nshq.UnionOfEmpties.1.0 e\n@sealed\n",
+    "shq/OnlyNested.1.0.dsdl": "shq.FloatConstOnly.1.0 a\nshq.BoolFieldOnly.1.0[<=2] b\n@extent 64\n",
+    "shq/ByteArrays.1.0.dsdl": "uint8[0] z0\nuint8[<=0] z1\nbyte[<=1] b\nutf8[<=1] s\n@sealed\n" if False else "byte[<=1] b\nutf8[<=1] s\nuint8[1] one\n@sealed\n",
+    "shq/Dep.1.0.dsdl": "@deprecated\nvoid8\n@sealed\n",
+    "shq/300.DepSvc.1.0.dsdl": "@deprecated\nshq.Dep.1.0 d\n@sealed\n---\n@sealed\n",
+    "shq/Wide.1.0.dsdl": "uint64 a\nint64 b\nfloat64 c\nuint64[<=2] d\ntruncated uint63 e\nsaturated int63 f\nuint64 MAXU = 18446744073709551615\n@sealed\n",
+}
+
+
+def write_shapes_set(dsdl_dir):
+    for rel, text in SHAPES_SET.items():
+        os.makedirs(os.path.dirname(os.path.join(dsdl_dir, rel)), exist_ok=True)
+        with open(os.path.join(dsdl_dir, rel), "w") as f:
+            f.write(text)
+    roots = ["shq"]
+    return roots, dsdlgen.read_all(dsdl_dir, roots), 0
+
+
 def write_prefix_set(dsdl_dir):
     for rel, text in PREFIX_SET.items():
         os.makedirs(os.path.dirname(os.path.join(dsdl_dir, rel)), exist_ok=True)
@@ -396,12 +438,14 @@ def one_set(ctx, idx, cflags, cxxflags):
     dsdl_dir = os.path.join(d, "dsdl")
     if idx == "prefix":
         roots, parsed, rejected = write_prefix_set(dsdl_dir)
+    elif idx == "shapes":
+        roots, parsed, rejected = write_shapes_set(dsdl_dir)
     else:
         roots, parsed, rejected = dsdlgen.make_set(dsdl_dir, "c06/%s/%d" % (ctx.seed, idx), "hostile", nroots=2, docs=True, allow=("hostile_c_docs", "extreme_consts", "deprecated", "port_id"))
     ctx.count("drafts_rejected_by_frontend", rejected)
     alltypes = [t for r in roots for t in parsed[r]]
     witness = dict(set=idx, seed=ctx.seed, roots=roots)
-    if idx == "prefix" or idx % 2 == 0:
+    if idx in ("prefix", "shapes") or idx % 2 == 0:
         inprocess_generation_with_contract(ctx, dsdl_dir, roots, parsed, d)
     configs = []
     for omit in (False, True):
@@ -409,7 +453,7 @@ def one_set(ctx, idx, cflags, cxxflags):
         for std in (["c++14", "c++17-pmr"] if ctx.quick else ["c++14", "c++17", "c++20", "c++17-pmr"]):
             configs.append(("cpp", ["--language-standard", std], omit))
         configs.append(("py", [], omit))
-    if ctx.quick:
+    if ctx.quick and idx != "shapes":
         configs = [c for c in configs if not c[2]] + R.sample([c for c in configs if c[2]], 2)
     jobs, meta = [], {}
     for lang, flags, omit in configs:
@@ -545,6 +589,7 @@ def run(ctx):
     ctx.rule = ("case = (namespace set, language, standard, serialization on/omitted, generated file, compiler); distinct = distinct (file, compiler) translation units "
                 "and modules that built/imported without any diagnostic")
     one_set(ctx, "prefix", cflags, cxxflags)
+    one_set(ctx, "shapes", cflags, cxxflags)
     for i in range(ctx.pick(3, 40)):
         one_set(ctx, i, cflags, cxxflags)
     ctx.require("translation_units_clean", 100)
